@@ -45,7 +45,10 @@ PROPS = {
         "entries": [f"<{S_OH}<K, O, A> as category::spider::Spider<K>>::", f"{S_OH}::<K, O, A>::spider",
                     "category::spider::Spider::half_spider",
                     "Spider<array::vec::vec_array::VecKind> for lax::open_hypergraph::OpenHypergraph<O, A>>::",
-                    "lax::open_hypergraph::OpenHypergraph::<O, A>::spider"],
+                    "lax::open_hypergraph::OpenHypergraph::<O, A>::spider",
+                    f"<{S_OH}<K, O, A> as category::traits::SymmetricMonoidal>::twist",
+                    "SymmetricMonoidal for lax::open_hypergraph::OpenHypergraph<O, A>>::twist",
+                    f"{S_OH}::<K, O, A>::identity", "lax::open_hypergraph::OpenHypergraph::<O, A>::identity"],
         "anchors": [f"<{S_OH}<K, O, A> as category::spider::Spider<K>>::dagger", f"{S_OH}::<K, O, A>::spider",
                     "category::spider::Spider::half_spider", "lax::open_hypergraph::OpenHypergraph::<O, A>::spider"],
         "rules": [], "level": "proof",
